@@ -50,3 +50,22 @@ From Coba Require C13.ModelEncodeCat.
 Definition run_encode_cat (x : sx) : sx :=
   let cell_of := fun c => match as_z (nth_sx 0 c) with 0 => ModelEncodeCat.Num (as_z (nth_sx 1 c)) | _ => ModelEncodeCat.Cat (as_nat (nth_sx 1 c)) (as_nat (nth_sx 2 c)) end in
   L_ (map (fun c => match c with ModelEncodeCat.Num z => Z_ z | ModelEncodeCat.Cat i n => L_ [of_nat i; of_nat n] end) (ModelEncodeCat.encode_flat (map cell_of (as_l x)))).
+
+(* nested rows.  request: a value (0 z) | (1 i n) | (2 (values...)) -> the encoded value, numbers as z and collections as lists *)
+From Coba Require C13.ModelEncodeNested.
+Fixpoint val_of (fuel : nat) (x : sx) : ModelEncodeNested.val :=
+  match fuel with
+  | O => ModelEncodeNested.VNum 0
+  | S f => match as_z (nth_sx 0 x) with
+           | 0 => ModelEncodeNested.VNum (as_z (nth_sx 1 x))
+           | 1 => ModelEncodeNested.VCat (as_nat (nth_sx 1 x)) (as_nat (nth_sx 2 x))
+           | _ => ModelEncodeNested.VList (map (val_of f) (as_l (nth_sx 1 x)))
+           end
+  end.
+Fixpoint sx_of_val (v : ModelEncodeNested.val) : sx :=
+  match v with
+  | ModelEncodeNested.VNum z => Z_ z
+  | ModelEncodeNested.VCat i n => L_ [Z_ (-1); of_nat i; of_nat n]
+  | ModelEncodeNested.VList l => L_ (map sx_of_val l)
+  end.
+Definition run_encode_nested (x : sx) : sx := sx_of_val (ModelEncodeNested.encode (val_of 12 x)).
